@@ -1857,9 +1857,9 @@ theorem StRel.reset_no_panic {st : St} {w : World} (h : StRel st w) (i : Nat) (p
   rw [Ne, syncRegistry_reset_panics_iff, h.resetOK i p n hm]
   simp
 
-/-- non-vacuity of `none`: a snapshot directory whose name contains "%5d" makes the standalone path
-    format fall outside the modelled fragment -/
-example : matchStandaloneSnapshot IOFail.never exSt0 false exCaller { snapsDir := [47, 37, 53, 100] } exT [120] = none := by
+/-- since the repair of D12 a snapshot directory whose name contains "%5d" is user text like any other: the
+    standalone path stays inside the modelled fragment of `Sprintf` (its only verb is the ordinal's `%d`) -/
+example : matchStandaloneSnapshot IOFail.never exSt0 false exCaller { snapsDir := [47, 37, 53, 100] } exT [120] ≠ none := by
   decide +kernel
 
 /-! ## 12. a dead branch: `if err != nil { handleError(t, err); return }` after the lookup -/
